@@ -1,6 +1,6 @@
 (* Properties/C01.v -- Encode -> symbol -> decode returns exactly the original bytes (what is a theorem so far). *)
 From Coq Require Import Arith ZArith NArith List Bool.
-From DM Require Import Spec.Stream16022 Proofs.EncAscii Proofs.PlanAscii Proofs.EncB256 Model.Planner Generated.Symbols Generated.ModeTables Model.PlannerRun Spec.GF256 Model.Outcome Model.SymbolList Model.RSEnc Model.Dec Model.Enc Model.Api
+From DM Require Import Spec.Stream16022 Proofs.EncAB Proofs.EncAscii Proofs.PlanAscii Proofs.EncB256 Model.Planner Generated.Symbols Generated.ModeTables Model.PlannerRun Spec.GF256 Model.Outcome Model.SymbolList Model.RSEnc Model.Dec Model.Enc Model.Api
   Proofs.Pipeline.
 Import ListNotations.
 
@@ -65,6 +65,32 @@ Theorem C01_base256_only_roundtrip : forall sorter data symbols cw s,
   decode_data cw = Ok data.
 Proof. intros so d sy cw s HS OK H. exact (proj2 (b256_only_roundtrip so d sy cw s HS OK H)). Qed.
 Print Assumptions C01_base256_only_roundtrip.
+
+(* ... and for EVERY plan that uses only ASCII and Base256, whatever its switch positions (the plan is not characterised,
+   only its modes): ASCII runs up to each planned switch, Base256 fields with their in-place randomised length field,
+   the last field written in the run-to-the-end form exactly when it fills the symbol.  With the crate's optimiser this
+   covers every mode set within {ASCII, Base256} (its plans name enabled modes only, C13), in particular the
+   "binary-safe" configuration {ASCII, Base256} *)
+Theorem C01_ab_plan_roundtrip : forall optimize_fn data symbols modes cw s,
+  (forall p, optimize_fn data 0 symbols modes = Ok (Some p) -> Forall (fun e => snd e = Ascii \/ snd e = Base256) p) ->
+  bytes_ok data = true ->
+  encode_data_internal optimize_fn data symbols None modes false false = Ok (cw, s) ->
+  decode_data cw = Ok data.
+Proof. intros o d sy m cw s HP OK H. exact (proj2 (ab_plan_roundtrip o d sy m HP cw s OK H)). Qed.
+Print Assumptions C01_ab_plan_roundtrip.
+
+Theorem C01_ascii_base256_roundtrip : forall sorter data symbols cw s,
+  (forall k l l', sorter symbols k l = Ok l' -> incl l' l) -> bytes_ok data = true ->
+  encode_data_internal (optimize_fn sorter) data symbols None 33 false false = Ok (cw, s) ->
+  decode_data cw = Ok data.
+Proof. intros so d sy cw s HS OK H. exact (proj2 (ascii_base256_roundtrip so d sy cw s HS OK H)). Qed.
+Print Assumptions C01_ascii_base256_roundtrip.
+
+(* non-vacuity: with {ASCII, Base256} the optimiser really mixes the two (ASCII, a Base256 field, ASCII digits) *)
+Example C01_ascii_base256_example :
+  optimize_fn stable_sorter [72; 105; 200; 201; 202; 203; 204; 49; 50; 51; 52] 0 sl_default 33
+    = Ok (Some [(11, Base256); (4, Ascii); (0, Ascii)]).
+Proof. vm_compute. reflexivity. Qed.
 
 (* NOT a theorem for the other plans: decode_data (data codewords of encode) = Ok input under arbitrary plans of the
    optimiser (the encoder side of C02 for C40/Text/X12/EDIFACT/Base256 runs).  The check evaluates it on every case:
